@@ -1,27 +1,55 @@
 package hackpadfs
 
-import "strings"
+import (
+	"path"
+	"strings"
+)
 
+// stripErrPathPrefix re-expresses the paths of a PathError or LinkError, which were produced by an operation on 'mountSubPath'
+// inside a mounted FS, in the namespace of the caller, who asked for 'name'.
 func stripErrPathPrefix(err error, name, mountSubPath string) error {
 	if err == nil {
 		return err
 	}
-	prefix := strings.TrimSuffix(mountSubPath, name)
 	switch err := err.(type) {
 	case *PathError:
 		return &PathError{
 			Op:   err.Op,
-			Path: strings.TrimPrefix(err.Path, prefix),
+			Path: callerErrPath(err.Path, name, mountSubPath),
 			Err:  err.Err,
 		}
 	case *LinkError:
 		return &LinkError{
 			Op:  err.Op,
-			Old: strings.TrimPrefix(err.Old, prefix),
-			New: strings.TrimPrefix(err.New, prefix),
+			Old: callerErrPath(err.Old, name, mountSubPath),
+			New: callerErrPath(err.New, name, mountSubPath),
 			Err: err.Err,
 		}
 	default:
 		return err
 	}
+}
+
+// callerErrPath converts 'p' from the mounted FS's namespace to the caller's, given that 'mountSubPath' there is 'name' here.
+// Works in both directions: for a Sub FS (mountSubPath = dir/name) and for a mount point (name = mount point/mountSubPath).
+func callerErrPath(p, name, mountSubPath string) string {
+	switch {
+	case p == mountSubPath:
+		return name
+	case name == mountSubPath:
+		return p
+	case name == ".":
+		// root of a Sub FS, mountSubPath is its directory
+		return strings.TrimPrefix(p, mountSubPath+"/")
+	case mountSubPath == ".":
+		// root of a mounted FS, name is its mount point
+		return path.Join(name, p)
+	case strings.HasSuffix(mountSubPath, "/"+name):
+		// inside a Sub FS, strip its directory
+		return strings.TrimPrefix(p, strings.TrimSuffix(mountSubPath, name))
+	case strings.HasSuffix(name, "/"+mountSubPath):
+		// inside a mounted FS, prepend its mount point
+		return path.Join(strings.TrimSuffix(name, mountSubPath), p)
+	}
+	return p
 }
